@@ -167,8 +167,24 @@ func unwrapSafe(v Value) Value {
 		if isNilPointer(sv) {
 			return nil
 		}
-		v = sv.Value()
+		inner, ok := safeValueOf(sv)
+		if !ok {
+			return nil
+		}
+		v = inner
 	}
+}
+
+// safeValueOf calls sv.Value and reports a panic as "holds nothing": a struct
+// that embeds a nil SafeValue satisfies the interface, and the call
+// dereferences nil.
+func safeValueOf(sv SafeValue) (v Value, ok bool) {
+	defer func() {
+		if recover() != nil {
+			v, ok = nil, false
+		}
+	}()
+	return sv.Value(), true
 }
 
 // CoerceBool coerces the given value into a boolean. Boolean false is returned
